@@ -4,7 +4,7 @@ from ..rules import r10, r6p
 
 
 def run(ctx: Ctx) -> list[Ob]:
-    return r10.run(ctx) + r10.r10g(ctx) + r6p.r6p(ctx)
+    return r10.run(ctx) + r10.r10g(ctx) + r6p.r6p(ctx) + r10.r10j(ctx)
 
 
 SPEC = PropSpec(
@@ -25,6 +25,7 @@ SPEC = PropSpec(
         "circuit (X.deref() / retrieve_compiled_parameter(..)[0]) is only inspected or wrapped in a TorchPointerParameter by the "
         "backend -- as a regular node of a derived circuit's parameter graph it would be registered a second time (not 'exactly "
         "once') and re-initialised by the reset_parameters() ending the derived circuit's compilation, overwriting loaded values."
+        " R10j: TorchCircuit.reset_parameters visits, for every layer, its params and (recursively) the layers in its sub_modules -- the tensors of a layer wrapped by an evidence layer are allocated and initialised with the rest."
     ),
     not_decided=(
         "torch's own state_dict / load_state_dict semantics; that a fresh compilation enumerates modules in the same order; 'exactly "
